@@ -323,6 +323,10 @@ func (w *World) RotationFile() (name, content string) {
 			}
 		}
 		b.WriteString(line(w.Field, r, csv) + e)
+		if w.Decoys > 1 && i == len(w.Rot)/2 && i < len(w.Rot)-1 {
+			// another field's entry between the entries of this field (files grown by appending period after period)
+			b.WriteString(line("ZZDECOY3", decoy, csv) + e)
+		}
 	}
 	if w.Decoys > 1 {
 		b.WriteString(line("ZZDECOY2", decoy, csv) + e)
